@@ -1,5 +1,5 @@
 CONSTANT Aggs <- OneAgg
-CONSTANT Calls <- CallsTwoStatStat
+CONSTANT Calls <- CallsTwoStat
 CONSTANT InitOut <- InitRows
 CONSTANT MaxCrashes = 2
 CONSTANT MaxSessions = 3
